@@ -20,6 +20,7 @@ class ModuleInfo:
         self.classes = {}    # name -> {'bases': [...], 'methods': [...], 'consts': {name: ast expr}}
         self.globals_ast = {}  # module-level simple assignments name -> ast expr
         self.imports = {}    # local name -> ('module', dotted) | ('from', dotted, name)
+        self.opaque_globals = set()
         self._index()
 
     def _index(self):
@@ -39,6 +40,12 @@ class ModuleInfo:
                 for tgt in node.targets:
                     if isinstance(tgt, ast.Name):
                         self.globals_ast[tgt.id] = node.value
+            elif isinstance(node, ast.Try):
+                for sub in ast.walk(node):
+                    if isinstance(sub, ast.Assign):
+                        for tgt in sub.targets:
+                            if isinstance(tgt, ast.Name):
+                                self.opaque_globals.add(tgt.id)
             elif isinstance(node, ast.Import):
                 for al in node.names:
                     self.imports[al.asname or al.name.split('.')[0]] = ('module', al.name if al.asname else al.name.split('.')[0])
